@@ -41,6 +41,8 @@ def groups(tier, seed):
             yield {'kind': 'arcdate', 'key': key, 'desc': desc, 'keys': [key], 'cases': []}
     # archive members are rows too: a key that is not selected orders them by their own values
     yield {'kind': 'arckeys', 'keys': ['arckeys'], 'cases': []}
+    # a value of one key column that is, as text, a value of another key column of another kind (a file named like a printed date, like a size)
+    yield {'kind': 'lookalike', 'keys': ['lookalike'], 'cases': []}
     # keys some rows have no value for, next to negative and fractional values; whole numbers beyond 2^53; years beyond 9999
     for fam in ('empty', 'bigint', 'fardate'):
         yield {'kind': 'oddkeys', 'fam': fam, 'keys': [fam], 'cases': []}
@@ -72,6 +74,8 @@ def groups(tier, seed):
 def single(case):
     if case.get('kind') == 'tty':
         return {'kind': 'tty', 'keys': ['tty'], 'cases': [], 'only': case['query']}
+    if case.get('kind') == 'lookalike':
+        return {'kind': 'lookalike', 'keys': ['lookalike'], 'cases': [], 'only': case['query']}
     if case.get('kind') == 'arckeys':
         return {'kind': 'arckeys', 'keys': ['arckeys'], 'cases': [], 'only': case['query']}
     if case.get('kind') == 'oddkeys':
@@ -133,6 +137,61 @@ def eval_arcdate(env, group):
                         else:
                             res.update(status='ok', sig=tuple(p_ for p_, _ in dated))
                     outs.append(res)
+    finally:
+        env.rmtree(root)
+    return outs
+
+
+def eval_lookalike(env, group):
+    import os
+    import time
+    root = env.newdir('c5l')
+    F, D = core.F, core.D
+    t1, t2, t3 = 1614834367, 1546300800, 1700000000      # 2021-03-04 05:06:07, 2019-01-01 00:00:00, 2023-11-14 22:13:20 (UTC)
+    stamp = lambda t: time.strftime('%Y-%m-%d %H:%M:%S', time.gmtime(t))
+    core.materialise(root, {stamp(t1): F(100, mtime=t2), '100': F(7, mtime=t3), stamp(t2): F(3, mtime=t3), 'zeta': F(50, mtime=t1 + 1), 'alpha': F(100, mtime=t1 - 1),
+                            'sub': D({'x': F(7, mtime=t1), 'y': F(100, mtime=t2), '7': F(1, mtime=t1), 'sub2': D({stamp(t3): F(7, mtime=t1), 'w': F(3, mtime=t3)}, mtime=t2)}, mtime=t3)})
+    outs = []
+    try:
+        ents = {}
+        for dp, dns, fns in os.walk(root):
+            for n in dns + fns:
+                p_ = os.path.join(dp, n)
+                st = os.lstat(p_)
+                ents['./' + os.path.relpath(p_, root)] = {'name': n, 'modified': int(st.st_mtime), 'size': st.st_size}
+        for keys in (('modified', 'name'), ('name', 'modified'), ('size', 'name'), ('name', 'size'), ('modified', 'size', 'name'), ('name',), ('modified',)):
+            for descs in ([False] * len(keys), [True] * len(keys), [i % 2 == 0 for i in range(len(keys))]):
+                for sel in ('path', 'path, ' + ', '.join(keys)):
+                    for mode in ('', ' dfs'):
+                        for rd in ('sorted', 'rev'):
+                            q = '%s from .%s where is_file = true order by %s' % (sel, mode, ', '.join(k + (' desc' if d else '') for k, d in zip(keys, descs)))
+                            if group.get('only') is not None and group['only'] != [q, rd]:
+                                continue
+                            o = env.run([q + ' into list'], cwd=root, preload=True, env={'FSX_READDIR': rd})
+                            ncol = 1 + (len(keys) if ',' in sel else 0)
+                            rows = o.rows(ncol) if ncol > 1 else o.rows()
+                            paths = [r_[0] if ncol > 1 else r_ for r_ in (rows or [])]
+                            res = {'case': {'kind': 'lookalike', 'query': [q, rd]}, 'layer': 'look-alike-values', 'nt': True, 'trans': len(paths) + 1}
+                            files = sorted(p_ for p_ in ents if os.path.isfile(os.path.join(root, p_)))
+                            if o.rc != 0 or o.err or sorted(paths) != files:
+                                res.update(status='viol', cls='not-a-permutation', sig=('perm',), detail=dict(o.brief(), query=q))
+                            else:
+                                ks = [tuple(ents[p_][k] for k in keys) for p_ in paths]
+                                bad = None
+                                for i in range(len(ks) - 1):
+                                    for (x, y, d) in zip(ks[i], ks[i + 1], descs):
+                                        if x != y:
+                                            if (x > y) != d:
+                                                bad = i
+                                            break
+                                    if bad is not None:
+                                        break
+                                if bad is not None:
+                                    res.update(status='viol', cls='unsorted:look-alike-values', sig=('unsorted', keys),
+                                               detail={'query': q, 'readdir': rd, 'pair': [[paths[bad], list(map(str, ks[bad]))], [paths[bad + 1], list(map(str, ks[bad + 1]))]]})
+                                else:
+                                    res.update(status='ok', sig=tuple(paths))
+                            outs.append(res)
     finally:
         env.rmtree(root)
     return outs
@@ -351,6 +410,8 @@ def eval_group(env, group, tier):
         return eval_oddkeys(env, group)
     if group.get('kind') == 'arckeys':
         return eval_arckeys(env, group)
+    if group.get('kind') == 'lookalike':
+        return eval_lookalike(env, group)
     if group.get('kind') == 'tty':
         return eval_tty(env, group)
     root = env.newdir('c5')
